@@ -97,7 +97,7 @@ Definition cmp_holds (op : cop) (c : comparison) : bool :=
   end.
 
 (* a binding compared with a literal constant: numbers numerically, text and extracted ids/types lexicographically,
-   bool / blob by printed form; a constant of another kind never holds *)
+   blob by its bytes, bool by printed form; a constant of another kind never holds *)
 Definition spec_lit (op : cop) (cl : cell) (v : litval) (cmp : str) : bool :=
   match cl, v with
   | CL l, _ =>
@@ -105,7 +105,8 @@ Definition spec_lit (op : cop) (cl : cell) (v : litval) (cmp : str) : bool :=
       | VInt a, VInt b => cmp_holds op (Z.compare a b)
       | VFloat a, VFloat b => match SFcompare a b with Some c => cmp_holds op c | None => false end
       | VText a, VText b => cmp_holds op (str_compare a b)
-      | VBool _, VBool _ | VBlob _, VBlob _ => cmp_holds op (str_compare (l_str l) cmp)
+      | VBlob a, VBlob b => cmp_holds op (str_compare a b)
+      | VBool _, VBool _ => cmp_holds op (str_compare (l_str l) cmp)
       | _, _ => false
       end
   | CS s, VText b => cmp_holds op (str_compare s b)
@@ -120,7 +121,8 @@ Definition spec_bind (op : cop) (a b : cell) : option bool :=
       | VInt x, VInt y => Some (cmp_holds op (Z.compare x y))
       | VFloat x, VFloat y => Some (match SFcompare x y with Some c => cmp_holds op c | None => false end)
       | VText x, VText y => Some (cmp_holds op (str_compare x y))
-      | VBool _, VBool _ | VBlob _, VBlob _ => Some (cmp_holds op (str_compare (l_str la) (l_str lb)))
+      | VBlob x, VBlob y => Some (cmp_holds op (str_compare x y))
+      | VBool _, VBool _ => Some (cmp_holds op (str_compare (l_str la) (l_str lb)))
       | _, _ => None
       end
   | CS x, CS y => Some (cmp_holds op (str_compare x y))
